@@ -170,7 +170,7 @@ def check(chk):
     flr = Flow(gr, 0, lambda n, c: c)
     rets_ = [n for n in gr.nodes if n.kind == 'return' and n.ast.value is not None]
     rais_ = [n for n in gr.nodes if n.kind == 'raise_stmt']
-    good = len(body) == 2 and src(body[0]) == 'self._event.wait()' and len(rets_) == 1 and len(rais_) == 1 and src(rets_[0].ast.value) == 'ResultSet(self, self._final_result)' \
+    good = len(body) >= 2 and src(body[0]) == 'self._event.wait()' and len(rets_) == 1 and len(rais_) == 1 and src(rets_[0].ast.value) == 'ResultSet(self, self._final_result)' \
         and src(rais_[0].ast.exc) == 'self._final_exception' and all(fa.knows('self._final_result is _NOT_SET') is False for fa, _ in flr.at(rets_[0])) \
         and all(fa.knows('self._final_result is _NOT_SET') is True for fa, _ in flr.at(rais_[0]))
     chk.judge(good, 'C14.result', r, 'result(): wait, then _final_result if set else raise _final_exception', 'result() no longer reports the stored outcome')
